@@ -21,6 +21,10 @@ for k in list(vs["readers"]):
         vs["readers"][k] = sorted(vi[k]["items"])
     else:
         print("READER GONE", k)
+for k in vi:
+    if k not in vs["readers"]:
+        print("reader added", k, len(vi[k]["items"]))
+        vs["readers"][k] = sorted(vi[k]["items"])
 json.dump(vs, open(p, "w"), indent=1)
 inv = triggers.inventory(F)
 p = os.path.join(V, "spec", "triggers.json")
